@@ -96,7 +96,10 @@ RefOut(a) == IF a.rl1 = 0 THEN [k |-> "err", leaf |-> 0, end |-> IF a.fR1 > 1 TH
 (* Outcome of the generated code (as modelled from the captured graph) when it stops on x. *)
 GraphOutByte(a) == IF ctx = 0 THEN [k |-> "err", leaf |-> 0, end |-> IF a.fG1 > 1 THEN a.fG1 ELSE 1]
                    ELSE [k |-> "tok", leaf |-> ctx, end |-> eG]
-GraphOutEoi(a)  == IF a.g2 # 0 THEN [k |-> "tok", leaf |-> D.g.accept[a.g2], end |-> Pos]
+(* EOI edge: offset += 1, the target records end(offset - 1) = pos if it is a late accept; a target  *)
+(* without a mark (only in graphs before the prune pass) records nothing                             *)
+EoiRecords(a)   == a.g2 # 0 /\ D.g.accept[a.g2] # 0
+GraphOutEoi(a)  == IF EoiRecords(a) THEN [k |-> "tok", leaf |-> D.g.accept[a.g2], end |-> Pos]
                    ELSE GraphOutByte(a)
 
 -----------------------------------------------------------------------------
@@ -183,7 +186,7 @@ TMunchAbs == Report("TMunchAbs",
 TMunchEoi == Report("TMunchEoi",
   IF atStart \/ ~CanEnd THEN {}
   ELSE LET a == Sym(0) IN
-       (IF a.g2 # 0 THEN (IF a.m # 0 /\ D.g.accept[a.g2] = a.m THEN {} ELSE {"hop"})
+       (IF EoiRecords(a) THEN (IF a.m # 0 /\ D.g.accept[a.g2] = a.m THEN {} ELSE {"hop"})
         ELSE (IF AgeEq(aG, a.aR1, same) /\ ctx = a.rl1 THEN {} ELSE {"rec"}))
        \cup (IF GraphOutEoi(a) # RefOut(a) THEN {"abs"} ELSE {}))
 
